@@ -855,8 +855,9 @@ fn parse_sexp_step(loc: Srcloc, current_state: &SExpParseState, this_char: u8) -
                 )),
                 _ => parse_sexp_step(
                     // if we don't see a '(' then process it as if the preceding '#' was part of a bareword
-                    loc.clone(),
-                    &SExpParseState::Bareword(loc, vec![b'#']),
+                    // (which starts where the '#' is, not at the current character)
+                    loc,
+                    &SExpParseState::Bareword(l.clone(), vec![b'#']),
                     this_char,
                 ),
             }
